@@ -39,6 +39,10 @@ def text_pool(extra=()):
         ['a\n\nb\n'],
         ['quote " \' \\ back\n'],
         ['0123456789\n' * 3],
+        # blank lines at the ends and a whitespace-only last line (they matter when lstrip / rstrip are passed)
+        ['tail blank\n\n\n'],
+        ['\nlead blank\n'],
+        ['ws line\n   \n'],
     ]
     return base + [list(e) for e in extra]
 
@@ -221,9 +225,10 @@ class Session:
     def set_regeneration(self, kind, flag):
         self.RT.set_regeneration(None if kind == 'NoKind' else kind, regenerate=flag)
 
-    def do_assert(self, ty, kind, paths, actual_ids):
+    def do_assert(self, ty, kind, paths, actual_ids, opts=None):
         """Returns (outcome class, wrote list, detail)."""
         k = None if kind == 'NoKind' else kind
+        kwo = dict(opts or {}) if ty in ('string', 'textfile', 'textfiles') else {}
         # age the references so that any rewrite (even with identical bytes inside one clock tick)
         # shows up as a changed mtime
         for p in self.path_types:
@@ -235,12 +240,12 @@ class Session:
         try:
           with contextlib.redirect_stdout(io.StringIO()):
             if ty == 'string':
-                self.rt.assertStringCorrect(self.content(ty, actual_ids[0]), self.refpath(paths[0]), kind=k)
+                self.rt.assertStringCorrect(self.content(ty, actual_ids[0]), self.refpath(paths[0]), kind=k, **kwo)
             elif ty in ('textfile', 'binary', 'ondisk', 'csvframe'):
                 ap = os.path.join(self.actdir, 'a%d%s' % (self.nact, EXT[ty]))
                 self.write_raw(ap, ty, self.content(ty, actual_ids[0]))
                 if ty == 'textfile':
-                    self.rt.assertTextFileCorrect(ap, self.refpath(paths[0]), kind=k)
+                    self.rt.assertTextFileCorrect(ap, self.refpath(paths[0]), kind=k, **kwo)
                 elif ty == 'binary':
                     self.rt.assertBinaryFileCorrect(ap, self.refpath(paths[0]), kind=k)
                 elif ty == 'ondisk':
@@ -253,7 +258,7 @@ class Session:
                     ap = os.path.join(self.actdir, 'a%d_%d.txt' % (self.nact, i))
                     self.write_raw(ap, ty, self.content(ty, cid))
                     aps.append(ap)
-                self.rt.assertTextFilesCorrect(aps, [self.refpath(p) for p in paths], kind=k)
+                self.rt.assertTextFilesCorrect(aps, [self.refpath(p) for p in paths], kind=k, **kwo)
             elif ty == 'dataframe':
                 self.rt.assertDataFrameCorrect(self.content(ty, actual_ids[0]), self.refpath(paths[0]), kind=k)
             else:
